@@ -171,7 +171,7 @@ def desugar_chain(cx, fn_by_path, ci, stages, line):
     init = []
     EXIT = cx.block()
     if cons_name in ("any", "all"):
-        RES = cx.local(cx.bool_ty)
+        RES = cx.local(cx.bool_ty, name="found" if cons_name == "any" else "all_hold")
         init.append({"k": "A", "p": [RES, []], "r": {"k": "use", "o": {"k": {"ty": cx.bool_ty, "bool": cons_name == "all"}}}, "s": line})
     elif cons_name in ("find", "find_map"):
         RES = cx.local()
@@ -328,7 +328,7 @@ def desugar_chain(cx, fn_by_path, ci, stages, line):
     return inlined
 
 
-def find_chains(d, f, fn_by_path, children):
+def find_chains(d, f, fn_by_path, children, force=False):
     """Chains to desugar in f: list of (stages, line)."""
     out = []
     used = set()
@@ -396,7 +396,7 @@ def find_chains(d, f, fn_by_path, children):
         sl = _plain_local(src_op)
         src_adt = d["types"][f["locals"][sl][0]].get("adt", "") if sl is not None else ""
         hash_src = src_adt.startswith("std::collections::hash_map::") or src_adt.startswith("std::collections::hash_set::")
-        if not any(_calls_local(c, fn_by_path, children) for c in cls) and not (hash_src and name in ("collect", "extend", "for_each", "fold")):
+        if not force and not any(_calls_local(c, fn_by_path, children) for c in cls) and not (hash_src and name in ("collect", "extend", "for_each", "fold")):
             continue  # pure combinator use: stays an atomic call (unless it turns hash order into a sequence)
         for bi, _, _ in stages:
             used.add(bi)
@@ -523,6 +523,46 @@ def find_loop_sources(d, f, fn_by_path):
         ln = t["s"][0]
         out.append((ib, stages, nbs[0], ln))
     return out
+
+
+def desugar_function(d, f, force=True):
+    """Desugar every supported chain / loop source of the single fact record `f` (in place), whatever
+    its closures do.  For rules that read the *semantics* of a small function from its loop.  Returns the
+    number of rewrites."""
+    fn_by_path = {}
+    children = {}
+    for g in d["fns"]:
+        fn_by_path.setdefault(g["path"], g)
+        if g.get("parent"):
+            children.setdefault(g["parent"], []).append(g)
+    n = 0
+    for _ in range(8):
+        chains = find_chains(d, f, fn_by_path, children, force=force)
+        if not chains or len(f["blocks"]) > MAX_BLOCKS:
+            break
+        stages, line = chains[0]
+        backup = (copy.deepcopy(f["blocks"]), copy.deepcopy(f["locals"]))
+        try:
+            inl = desugar_chain(_Ctx(d, f), fn_by_path, stages[-1][0], stages, line)
+            f.setdefault("inlined", []).extend(inl)
+            n += 1
+        except Exception:
+            f["blocks"], f["locals"] = backup
+            f["blocks"][stages[-1][0]]["inl_desugared"] = True
+    for _ in range(6):
+        found = find_loop_sources(d, f, fn_by_path)
+        if not found or len(f["blocks"]) > MAX_BLOCKS:
+            break
+        ib, stages, nb, line = found[0]
+        backup = (copy.deepcopy(f["blocks"]), copy.deepcopy(f["locals"]))
+        try:
+            inl = desugar_loop_source(_Ctx(d, f), fn_by_path, ib, stages, nb, line)
+            f.setdefault("inlined", []).extend(inl)
+            n += 1
+        except Exception:
+            f["blocks"], f["locals"] = backup
+            f["blocks"][ib]["loop_desugared"] = True
+    return n
 
 
 def apply(d):
